@@ -29,7 +29,8 @@ NAMES = ["a", "b", "d", "d1", "d2", "a.txt", "z", "0", "d.x", "sub", "B", "_", "
 
 
 # replica folders are given on the command line in THIS order, which is not their alphabetical order ("order matters")
-REPLICA_NAMES = ["vault", "backup", "zeta", "archive", "disk2", "disk1", "copy10", "copy2"]
+# ("out_disk": the output folder is `out`: a replica whose path merely begins with the characters of the output path is still a replica)
+REPLICA_NAMES = ["vault", "out_disk", "zeta", "archive", "disk2", "disk1", "copy10", "copy2"]
 
 
 def rr():
